@@ -133,3 +133,79 @@ def bounded_tokenise(seed, tier):
     return {'function': 'pyx12.rawx12file.RawX12File.__init__/__iter__ (+ X12Reader source selection, format/read round trip)',
             'evaluations': n, 'bound': '%d fixture documents x 4 delimiter triples x 4 line-end conventions x %d perturbations x read chunkings, seed %d' % (len(docs), nvar, seed),
             'failures': failures}
+
+
+def bounded_normaliser(seed, tier):
+    """BOUNDED native stand-in for C20 (x12norm.main: argparse / glob / tempfile, outside the verified subset):
+    content preservation, idempotence, count repair, all output destinations"""
+    import io
+    import os
+    import sys
+    import tempfile
+    import contextlib
+    import pyx12.scripts.x12norm as norm
+    import pyx12.x12file
+    from pyx12.test.x12testdata import datafiles
+    n = 0
+    failures = []
+
+    def run(argv):
+        old = sys.argv
+        sys.argv = ['x12norm'] + argv
+        buf = io.StringIO()
+        try:
+            with contextlib.redirect_stdout(buf):
+                norm.main()
+        finally:
+            sys.argv = old
+        return buf.getvalue()
+
+    def segs(text):
+        return [s.format('~', '*', ':') for s in pyx12.x12file.X12Reader(io.StringIO(text))]
+
+    def env_errors(text):
+        r = pyx12.x12file.X12Reader(io.StringIO(text))
+        errs = []
+        for s in r:
+            errs += r.pop_errors()
+        r.cleanup()
+        errs += r.pop_errors()
+        return [(e[0], e[1]) for e in errs if (e[0], e[1]) in (('isa', '021'), ('gs', '5'), ('st', '4'), ('seg', 'HL1'))]
+    for name in ('simple_837p', '834_lui_id', '835id'):
+        src = datafiles[name]['source']
+        d = tempfile.mkdtemp()
+        try:
+            fin = os.path.join(d, 'in.x12')
+            open(fin, 'w').write(src)
+            for opts in ([], ['-e'], ['-f'], ['-e', '-f']):
+                n += 1
+                out1 = run(opts + [fin])
+                if segs(out1) != segs(src):
+                    failures.append({'input': {'fixture': name, 'options': opts}, 'detail': 'C20: normalised output has different segments'})
+                f2 = os.path.join(d, 'out.x12')
+                run(opts + ['-o', f2, fin])
+                if open(f2).read() != out1:
+                    failures.append({'input': {'fixture': name, 'options': opts + ['-o']}, 'detail': 'C20: -o file differs from stdout output (%d vs %d chars)' % (len(open(f2).read()), len(out1))})
+                out2 = run(opts + [f2])
+                if out2 != out1:
+                    failures.append({'input': {'fixture': name, 'options': opts}, 'detail': 'C20: normalising the output again changes it'})
+            # count repair
+            bad = src.replace('\nSE*', '\nSE*9', 1).replace('\nGE*', '\nGE*7', 1).replace('\nIEA*', '\nIEA*5', 1)
+            open(fin, 'w').write(bad)
+            n += 1
+            fixed = run(['-f', fin])
+            if env_errors(bad) and env_errors(fixed):
+                failures.append({'input': {'fixture': name, 'options': ['-f']}, 'detail': 'C20: count defects remain after --fixcounting: %r' % env_errors(fixed)})
+            f3 = os.path.join(d, 'inplace.x12')
+            open(f3, 'w').write(src)
+            n += 1
+            run(['-i', '-e', f3])
+            if segs(open(f3).read()) != segs(src):
+                failures.append({'input': {'fixture': name, 'options': ['-i', '-e']}, 'detail': 'C20: in-place normalisation changed the segments'})
+        except Exception as e:
+            failures.append({'input': {'fixture': name}, 'detail': 'C20: raised %s: %s' % (type(e).__name__, e)})
+        finally:
+            for f in os.listdir(d):
+                os.unlink(os.path.join(d, f))
+            os.rmdir(d)
+    return {'function': 'pyx12.scripts.x12norm.main', 'evaluations': n, 'bound': '3 fixtures x option combinations (eol, fixcounting, -o, -i)', 'failures': failures[:8]}
